@@ -193,8 +193,8 @@ func specVerify(e *hg.Event) (ok bool) {
 func runC07(r *Result, thorough bool) {
 	r.Rule = "valid gossip DAGs (3-6 validators, optional joiner) fed to a real Hashgraph with hostile variations injected at random points " +
 		"(tampered payload, wrong/duplicate/negative/skipped index re-signed by the creator, first event with index != 0, unknown or future parents, " +
-		"foreign creator, equivocation, replay, bad internal-transaction signature, self-parent of another creator; and the sync path: events in wire form rebuilt by ReadWireInfo with tampered index / self-parent index / other-parent index, re-signed by the creator, inserted as core.sync does); accept / rejection kind compared " +
-		"with the Lean admission function; oracle: admission invariant on the real store after every attempt, digest unchanged on rejection. " +
+		"foreign creator, equivocation, replay, bad internal-transaction signature, genuine membership requests replayed with another type or address, self-parent of another creator; and the sync path: events in wire form rebuilt by ReadWireInfo with tampered index / self-parent index / other-parent index, re-signed by the creator, inserted as core.sync does); accept / rejection kind compared " +
+		"with the Lean admission function (its signature bit is recomputed independently: SHA-256 of the JSON of the whole body, secp256k1); oracle: Event.Verify agrees with that recomputation, admission invariant on the real store after every attempt, digest unchanged on rejection. " +
 		"non-trivial: >=1 accepted and rejected attempts of >=3 different kinds"
 	rng := rand.New(rand.NewSource(r.Seed))
 	cases := 6
